@@ -93,6 +93,9 @@ def compare_tokens(a, b):
 EDGE_FORMS = ['f\'{a:{f"{b:{c:{d}}}"}}\'', 'f\'{o:{a:{f"{b:{c}}"}}}\'', "f'{a:{b:{c}}}'", "f'{a:{b}{c:{d}}}'", 'f"{x:{f\'{y:{z}}\'}}"', 'f\'{f"{a:{b:{c}}}":{d:{e}}}\'', 'f"{f\'a\'} {x:\'>3}"', 'f"{f\'a\':\'>5}"', 'f"""{f"a"} {x:">3}"""', 'f\'{f"b"}{y:"^4}\'', "f'''{f'{q}'} {x:'<2}'''", 'rf"{f\'a\'}{x:\'>3}\\d"', 'f"{rf\'\\d\'} {x:\'>3}"', "f'{{{x:>5}}}'", "f'{x:{y:>5}}'", "f'{x:{y:{z}}}'", "f'{{{x}}}'", "f'{x:>5}}}'", "f'{{{x:{w}}}}}}'", "f'}}{x:}}}'", 'f"{a}\\\n{b}"', 'f"""\\\n{x} y"""', "f'{a}\\\n'", 'f"\\\n{a}\\\n"', 'f"say \\"hi\\" to \'{name}\'"', 'f\'it\\\'s "{x}"\'', 'f"\\t\'{a}\'\\"{b}\\""', 'f\'\'\'\\\'""{q}"\'\\n\'\'\'', 'f"\'{a}\' \\\\"']
 
 
+RUN_PIECES = ["''", "'x'", "f''", "f'{a}'", "f'\\\n'", "f'y'", "f'\\\nq'", "f'{a}\\\n'", "u'v'", "'''\n'''", "f'''{b}\n'''", 'f"{c}\\\n{d}"', "u''", 'r"\\"']
+
+
 def strip_empty_spec_constants(tree):
     """CPython 3.12.1 appends Constant('') to a format spec that ends in a nested field; an empty
     constant in a spec means nothing, so it is dropped from both trees before comparing"""
@@ -171,6 +174,17 @@ def search(rec, ctx):
     for lit in ctx.shard(EDGE_FORMS):
         for tmpl in ("x = {S}\n", "print({S}, {S})\n", "if c:\n    y = {S}\nz = 1\n", "v = ({S}\n     'tail')\n"):
             check(rec, {"src": tmpl.replace("{S}", lit), "stream": "edge-forms", "features": ["edge-form"]})
+    # runs of adjacent literals: every sequence of up to three pieces (and a sample of four) out of plain, empty, u-prefixed,
+    # multi-line and f-string pieces, among them f-string text that is empty once decoded (a lone backslash-newline): which
+    # piece lends its start, its end and its kind to the merged constant
+    import itertools
+
+    runs = [c for k in (1, 2, 3) for c in itertools.product(RUN_PIECES, repeat=k)]
+    rrng = ctx.rng("literal-runs")
+    runs += [tuple(rrng.choice(RUN_PIECES) for _ in range(rrng.choice([4, 5]))) for _ in range(4000 if ctx.thorough else 400)]
+    for combo in ctx.shard(runs):
+        check(rec, {"src": "x = (" + " ".join(combo) + ")\n", "stream": "literal-runs", "features": ["edge-form"]})
+
     def gen(rnd):
         g = FGen(rnd, nonascii=rnd.random() < 0.1)
         src = g.statement()
